@@ -145,7 +145,7 @@ theorem parse_renderLineQ (d : Nat) (keep : Bool) (qp qf qs : Bool) (g1 g2 gs : 
     (hg1 : g1 ≠ [] ∧ ∀ c ∈ g1, c = d) (hg2 : g2 ≠ [] ∧ ∀ c ∈ g2, c = d)
     (hgs : gs ≠ [] ∧ AllSep sylSep gs) (hcm : ∀ gc c, cm = some (gc, c) → gc ≠ [] ∧ AllSep sylSep gc) :
     parseLine d keep (renderLineQ qp qf qs g1 g2 gs cm r) = .ok (zeroFreq keep r) := by
-  obtain ⟨⟨pne, ph, pl, psep⟩, hf, hs⟩ := wellFormed_iff.mp h
+  obtain ⟨⟨pne, ph, pl, psep⟩, hf, hs, hsne, hslen⟩ := wellFormed_iff.mp h
   have hsyl : ∀ c ∈ r.syls, sylOK c = true := by
     intro c hc
     have := hs c hc
@@ -185,6 +185,7 @@ theorem parse_renderLineQ (d : Nat) (keep : Bool) (qp qf qs : Bool) (g1 g2 gs : 
   unfold renderLineQ
   refine parseLine_of_tokens (fp := quoteIf qp r.phrase) (ff := quoteIf qf (decimal r.freq))
     (rest1 := tokens (· == d) (quoteIf qs (renderTail gs cm r))) ?_ tp (by rw [td]; exact parseU32_decimal hf) ?_
+    pne psep hsne hslen
   · rw [tokens_append_gap _ PD Pne g1d hg1.1, tokens_append_gap _ FD Fne g2d hg2.1]
   · rw [tokens_append_gap _ PS Pne g1s hg1.1, tokens_append_gap _ FS Fne g2s hg2.1]
     simp only [List.drop_succ_cons, List.drop_zero]
